@@ -246,7 +246,19 @@ def gen_sched(rng, tier):
                 ops.append(dict(op="enable_eom", channel=nm, amp_on=rng.choice([1.0, 2.0, 5.0]), det_on=0.0,
                                 opt_off=0.0))
             in_eom[nm] = not in_eom[nm]
-        elif r < 0.3:
+        elif r < 0.42 and len(names) >= 2:
+            # bring channels to rest together, then play at once on one of them
+            k = rng.randint(2, len(names))
+            chs = [n for n, _ in rng.sample(names, k)]
+            if len(set(chs)) >= 2:
+                ops.append(dict(op="align", channels=chs, at_rest=rng.random() < 0.85))
+                nm2, spec2 = rng.choice([x for x in names if x[0] in chs])
+                if not in_eom[nm2] and rng.random() < 0.7:
+                    d = dur(spec2)
+                    ops.append(dict(op="add", channel=nm2, protocol=rng.choice([1, 1, 0]),
+                                    pulse=dict(amp=dict(k="const", d=d, v=rng.choice([1.0, 5.0])),
+                                               det=dict(k="const", d=d, v=0.0), phase=phase, post=0.0)))
+        elif r < 0.5:
             spec_c = spec["clock_period"]
             ops.append(dict(op="delay", channel=nm, duration=spec_c * rng.randint(max(1, -(-spec["min_duration"] // spec_c)), 40)))
         elif in_eom[nm]:
@@ -516,6 +528,42 @@ def overlap_oracle(seq, op, case, upto):
 
 
 
+def align_oracle(seq, op, case, upto):
+    """after a successful align(..., at_rest=True) the aligned channels are at
+    rest: from the earliest moment any of them can play again (the smallest
+    of their durations) on, the modulated output of the last pulse of every
+    aligned channel is below max(0.01, 0.6% of its peak)."""
+    out = []
+    sched = seq._schedule
+    names = [n for n in op.get("channels", []) if n in sched]
+    if len(names) < 2:
+        return out
+    t_common = min(int(sched[n].get_duration()) for n in names)
+    sub = dict(case, ops=case["ops"][: upto + 1])
+    for n in names:
+        cs = sched[n]
+        if not cs.channel_obj.mod_bandwidth:
+            continue
+        q = None
+        for sl in reversed(list(cs.slots)):
+            if isinstance(sl.type, Pulse) and np.any(_amp_of(sl)):
+                q = sl
+                break
+        if q is None:
+            continue
+        tail, thr, fall = _pulse_tail_at(cs, q, t_common)
+        if tail > thr * (1 + 1e-9):
+            ch = cs.channel_obj
+            slow = (ch.supports_eom() and ch.eom_config.rise_time > ch.rise_time
+                    and bool(cs.in_eom_mode(time_slot=q)))
+            out.append(Violation(
+                "overlap:align" + (":eom-slower-than-channel" if slow else ""),
+                f"after align({', '.join(names)}, at_rest=True) a channel can play again at {t_common} while the output of "
+                f"the pulse [{q.ti},{q.tf}] on {n!r} (accounted fall time {fall}) is still {tail:g} > {thr:g}", sub))
+    return out
+
+
+
 def run_seq(case):
     viols = []
 
@@ -523,15 +571,19 @@ def run_seq(case):
         viols.append(Violation(sig, what, case, detail))
 
     n_sep = [0]
+    n_al = [0]
 
     def hook(i, op, seq_, out, exc):
         if exc is None and op["op"] in ("add", "add_eom", "add_dmm") and op.get("protocol", 0 if op["op"] != "add_dmm" else 1) in (0, 2):
             n_sep[0] += 1
             viols.extend(overlap_oracle(seq_, op, case, i))
+        if exc is None and op["op"] == "align" and op.get("at_rest", True) and not seq_.is_parametrized():
+            n_al[0] += 1
+            viols.extend(align_oracle(seq_, op, case, i))
 
     r = seqimpl.run_case(case, hook)
     seq = r["seq"]
-    run = dict(outcomes=[t[0][0] for t in r["trace"][:-1]], chans=[], plain=None, whole=None, separated=n_sep[0])
+    run = dict(outcomes=[t[0][0] for t in r["trace"][:-1]], chans=[], plain=None, whole=None, separated=n_sep[0], aligned=n_al[0])
     if seq.is_parametrized():
         run["plain"] = "parametrized"
         return run, viols
@@ -829,6 +881,7 @@ class C14(PropCheck):
             b = acc.setdefault("seq", {})
             b["plain_" + str(run["plain"])] = b.get("plain_" + str(run["plain"]), 0) + 1
             b["pulses_separated_by_scheduler"] = b.get("pulses_separated_by_scheduler", 0) + run.get("separated", 0)
+            b["aligns_at_rest"] = b.get("aligns_at_rest", 0) + run.get("aligned", 0)
             for c in run.get("chans", []):
                 key = "chan_ok" if c["out"][0] == 0 else f"chan_err{c['out'][0]}"
                 b[key] = b.get(key, 0) + 1
